@@ -52,7 +52,13 @@ func (t scopedTri) PointInSide(p vector3.Float64) bool {
 	}
 
 	w := a.Cross(b)
-	return u.Dot(w) >= 0.
+	if u.Dot(w) < 0. {
+		return false
+	}
+
+	// u vanishes when p lies on the line through B and C; the two tests
+	// above then say nothing and v and w have to agree themselves
+	return v.Dot(w) >= 0.
 }
 
 func (t scopedTri) ClosestPoint(p vector3.Float64) vector3.Float64 {
@@ -276,7 +282,13 @@ func (t Tri) PointInSide(p vector3.Float64) bool {
 	}
 
 	w := a.Cross(b)
-	return u.Dot(w) >= 0.
+	if u.Dot(w) < 0. {
+		return false
+	}
+
+	// u vanishes when p lies on the line through B and C; the two tests
+	// above then say nothing and v and w have to agree themselves
+	return v.Dot(w) >= 0.
 }
 
 func (t Tri) LineIntersects(line geometry.Line3D) (vector3.Float64, bool) {
